@@ -2,6 +2,10 @@
 
 #![allow(dead_code)]
 mod common;
+mod e2;
+mod fsmodel;
+mod proc;
+mod props_e2;
 mod engine;
 mod gen;
 mod ondisk;
@@ -22,6 +26,11 @@ fn seq_part(prop: &'static str, tier: Tier, seed: u64) -> Part {
     Part { rule: p.rule.to_string(), run: Box::new(move |ctx, acc| props_seq::run_seq_part(ctx, acc, &p)) }
 }
 
+fn e2_part(prop: &'static str, tier: Tier) -> Part {
+    let p = props_e2::part_for(prop, tier);
+    Part { rule: p.rule.to_string(), run: Box::new(move |ctx, acc| props_e2::run_e2_part(ctx, acc, &p)) }
+}
+
 fn level_of(id: &str) -> &'static str {
     match id {
         "C03" | "C09" | "C10" | "C14" => "fault_enumeration",
@@ -31,7 +40,9 @@ fn level_of(id: &str) -> &'static str {
 
 fn parts(id: &'static str, tier: Tier, seed: u64) -> Vec<Part> {
     match id {
-        "C01" | "C02" | "C07" | "C12" | "C13" | "C06" | "C18" | "C20" => vec![seq_part(id, tier, seed)],
+        "C01" | "C02" | "C07" | "C13" | "C18" => vec![seq_part(id, tier, seed)],
+        "C06" | "C12" | "C20" => vec![seq_part(id, tier, seed), e2_part(id, tier)],
+        "C03" | "C09" | "C08" => vec![e2_part(id, tier)],
         _ => vec![],
     }
 }
@@ -79,6 +90,7 @@ fn replay(path: &str) -> i32 {
     let id: &'static str = IDS.iter().find(|i| **i == prop).copied().expect("harness: unknown property in replay");
     let res = guarded(|| match engine.as_str() {
         "E1" => props_seq::replay_seq(id, case.clone()),
+        "E2" => props_e2::replay_e2(id, case.clone()),
         other => panic!("harness: unknown engine {other} in replay"),
     });
     match res {
@@ -109,6 +121,10 @@ fn main() {
             };
             let seed = std::env::var("VERIF_SEED").ok().and_then(|s| s.parse::<i64>().ok()).unwrap_or(0) as u64;
             run_prop(id, tier, seed)
+        }
+        Some("worker") => {
+            let code = proc::worker_main(&args[2..]);
+            std::process::exit(code);
         }
         Some("replay") => replay(args.get(2).expect("harness: usage: vcheck replay <file>")),
         _ => {
